@@ -451,6 +451,16 @@ func runC18(p params) error {
 		}
 		c18AddCase(out, sc, in)
 	}
+	// the first hello offers a higher version than the one negotiated: its cookie covers the version it said, and is
+	// worth nothing for a hello that says another
+	for k, v := range []uint16{0x0102, 0x0201, 0x0101} {
+		h := mkHello()
+		h.Vers, h.Suites, h.Comp = v, []uint16{0xe053, 0xe013}, []byte{0}
+		h1, h2, h3 := h, h, h
+		h1.Cookie, h2.Cookie, h3.Cookie = "none", "prev", "prev"
+		h2.Vers = []uint16{0x0101, 0x0101, 0x0102}[k]
+		c18AddCase(out, "loop-version-changed", c18Input{Kind: "loop", Secret: rb(32), Hellos: []c18Hello{h1, h2, h3}, Suite: 0xe013, Addr: "10.1.2.3:40000"})
+	}
 	// the hellos name a session the server holds in its cache: a cookie is still required first
 	for k := 0; k < 3; k++ {
 		h := mkHello()
